@@ -35,6 +35,7 @@ type Churn struct {
 	BuyIn          bool
 	Leave          bool
 	SitOut         bool // sometimes reserve without joining
+	OverlapOpen    float64 // probability per hand of a re-buy / add-on issued from another goroutine 0..3 ms after the last settlement signal, so that it overlaps the engine opening the hand
 	MidTopup       bool
 	MidJoin        bool
 	MidLeaveOther  bool // non-participants leave mid-hand
@@ -87,6 +88,7 @@ type Play struct {
 	PolicyName string
 	DeckName   string
 	HandTopups map[string]int64 // accepted top-ups while the current hand runs
+	ovCollect  func()           // pending outcome of a top-up that overlaps the open (see Churn.OverlapOpen)
 	midOps     int
 }
 
@@ -571,6 +573,10 @@ func RunPlay(c *h.Ctx, po PlayOpts, mon *PlayMon) *Play {
 func RunPlayCfg(c *h.Ctx, cfg h.TableCfg, po PlayOpts, mon *PlayMon) *Play {
 	p := &Play{C: c, Cfg: cfg, Opts: po, Mon: mon, Exp: map[string]int64{}, HandTopups: map[string]int64{}}
 	onEv := func(e *h.Ev) {
+		if f := p.ovCollect; f != nil && e.Kind == h.EvTable && e.T != nil && e.T.State.Status == pt.TableStateStatus_TableGameOpened {
+			p.ovCollect = nil
+			f()
+		}
 		if mon.OnEvent != nil {
 			mon.OnEvent(p, e)
 		}
@@ -649,8 +655,45 @@ func RunPlayCfg(c *h.Ctx, cfg h.TableCfg, po PlayOpts, mon *PlayMon) *Play {
 			ss.Pending = e.Setup
 			c.Feature("re-set-up-after-short-setup")
 		}
+		// a top-up issued from another goroutine 0..2 ms after the last settlement signal, so that it overlaps the
+		// engine opening the hand. The driver collects its outcome when it sees the opened snapshot (the hand cannot
+		// move on before the driver answers its first request), so the ledger is ahead of every later operation.
+		if po.Churn.OverlapOpen > 0 && p.R().Float64() < po.Churn.OverlapOpen {
+			if ids := inAndChips(p.tableNow()); len(ids) > 0 {
+				ovID, ovChips, ovKind := ids[p.R().Intn(len(ids))], p.chipsAmount(), []string{"rebuy", "addon"}[p.R().Intn(2)]
+				delay := time.Duration(p.R().Intn(2000)) * time.Microsecond
+				ovCh := make(chan error, 1)
+				go func() {
+					time.Sleep(delay)
+					if ovKind == "rebuy" {
+						ovCh <- ss.S.Reserve(ovID, -1, ovChips)
+					} else {
+						ovCh <- ss.S.Redeem(ovID, ovChips)
+					}
+				}()
+				p.ovCollect = func() {
+					select {
+					case err := <-ovCh:
+						if err == nil {
+							p.Exp[ovID] += ovChips
+							p.In += ovChips
+							p.HandTopups[ovID] += ovChips
+							c.Feature("top-up-overlapping-the-open")
+						}
+						p.record(OpRec{Kind: ovKind, ID: ovID, Chips: ovChips, Phase: "mid"}, err)
+					case <-time.After(45 * time.Second):
+						c.Inconclusive(fmt.Sprintf("foreign: %s(%s) issued while the hand was being opened has not returned after 45 s", ovKind, ovID))
+						p.StopNow = true
+					}
+				}
+			}
+		}
 		hd := ss.NextHand(sc)
 		p.CurHand = hd
+		if f := p.ovCollect; f != nil {
+			p.ovCollect = nil
+			f()
+		}
 		if p.StopNow && hd.Settled == nil {
 			return p
 		}
